@@ -9,26 +9,26 @@ VERIF = os.path.dirname(os.path.dirname(os.path.abspath(__file__)))
 sys.path.insert(0, VERIF)
 
 TECH = {
-    "C01": "MIR path multiplicity/pairing rules over the polymorphic sample recorder (loops, roles by Fn type, unwind-path audit) + Sync-bound predicates and compile-fail witnesses",
-    "C02": "MIR region rule between timestamp anchors (callee allow-list, no Drop), tally-bracket ordering, who-may-call, fence order",
-    "C03": "MIR dominance/once-per-iteration rules on the sampling loop, constants and provenance of reported counts, fresh-sample-store-per-run (constructor/run/report in one loop iteration, single constructor)",
+    "C01": "MIR path multiplicity/pairing rules over the polymorphic sample recorder (loops, roles by Fn type, unwind-path audit) + Sync-bound predicates and compile-fail witnesses; exactly-once-on-every-path rules (path summaries) for the per-kind input counting and for installing input counters",
+    "C02": "MIR region rule between timestamp anchors (callee allow-list, no Drop), tally-bracket ordering, who-may-call, fence order; per-timer-kind cache rule for cached measurements",
+    "C03": "MIR dominance/once-per-iteration rules on the sampling loop, constants and provenance of reported counts, fresh-sample-store-per-run (constructor/run/report in one loop iteration, single constructor); per-variant return tables of the BenchMode predicates (path summaries over discriminant tests)",
     "C04": "decision-DAG extraction of the sampling-loop condition over canonical comparison atoms, compared as a truth table with the documented rule; provenance of the two clocks; clock-start placement",
-    "C05": "provenance role-pairing of StatsSet fields, index writer/reader agreement, division-guard discharge over every Div/Rem reachable from compute_stats/finish_leaf; path summaries of slice_middle / total_duration / iteration-count width",
-    "C06": "MIR structural rules: ordering constants, use-after-release typestate, wait-loop dominance, counter/send provenance, trait-bound predicates",
+    "C05": "provenance role-pairing of StatsSet fields, index writer/reader agreement, division-guard discharge over every Div/Rem reachable from compute_stats/finish_leaf; path summaries of slice_middle / total_duration / iteration-count width; counter-list alignment (own-kind clear) rule",
+    "C06": "MIR structural rules: ordering constants, use-after-release typestate, wait-loop dominance, counter/send provenance, trait-bound predicates; exactly-one-call rules with operand provenance on the type-erased hop (Task::run, trampoline)",
     "C07": "MIR structural rules: park-loop re-check, unpark control dependence, worker exit path, sender ownership, lock-scope audit, provenance of the unparked handle (per-broadcast caller)",
     "C08": "must-pass-through barrier placement on all recorder paths, barrier arity provenance, unwind-path audit of user-closure calls",
     "C09": "MIR forwarding rule (exactly-once, verbatim operands, result place), transitive callee-closure allow-list, thread-local type facts",
     "C10": "flow-sensitive path summaries of the tally functions (final value of every field on every path as canonical value expressions, no solver), hook/tally pairing by call multisets per path, enum/array table agreement",
-    "C11": "MIR expression-shape rules (difference before conversion in either zero-clamping idiom, widen before multiply, multiply before divide, constants, operand widths) + type-range argument",
+    "C11": "MIR expression-shape rules (difference before conversion in either zero-clamping idiom, widen before multiply, multiply before divide, constants, operand widths) + type-range argument; structure of measure_precision (running minimum replaced only on Less, returned only after a measured comparison)",
     "C12": "syn analysis of attribute-macro expansions (-Zunpretty=expanded) against attributed items of the unexpanded source + MIR rules on list/tree insertion and on the unconditional pruning of empty argument lists",
     "C13": "polarity constants, per-path return values of FilterSet::is_match as canonical comparisons (path summaries), call-site placement of the filter callback per tree arm, naming-accessor agreement",
-    "C14": "entry-point/action constant tables, dominance of the listing short-circuit, provenance of every should_ignore argument, print-site structure of the terse walk, exact-filter arm is whole-string equality; argument lines printed from the Leaf's own filtered list (canonical value expression)",
-    "C15": "ADT-enumerated field-wise merge: per-field result on every path (path summaries: or-combiner or choice on the overriding side), all-origins provenance of the effective options, string-constant table agreement (CLI ids/env names/fields), ignore decision table, thread-count pipeline; attribute level via syn analysis of macro expansions (options as written); store-iff-present control-dependence rule on the CLI layer",
+    "C14": "entry-point/action constant tables, dominance of the listing short-circuit, provenance of every should_ignore argument, print-site structure of the terse walk, exact-filter arm is whole-string equality; argument lines printed from the Leaf's own filtered list (canonical value expression); abstract content of the reused path buffer on every path through one loop iteration",
+    "C15": "ADT-enumerated field-wise merge: per-field result on every path (path summaries: or-combiner or choice on the overriding side), all-origins provenance of the effective options, string-constant table agreement (CLI ids/env names/fields), ignore decision table, thread-count pipeline; attribute level via syn analysis of macro expansions (options as written); store-iff-present control-dependence rule on the CLI layer; sibling agreement of the counter-kind tables (KnownCounterKind::of / AnyCounter::new / count_inputs_as) over all Counter impls",
     "C16": "symmetric-comparator taint over all Ordering-returning functions, tie-breaker table, reversal wiring, mutator effect rule, derived-Ord field order",
     "C17": "provenance of label/index/runner in the Args arm, writers of Leaf.args, parallel-slice construction in BenchArgs::runner, TypeId check dominance; macro side via expansions; one shared argument cell and own type/const per instantiation via syn analysis of macro expansions",
     "C18": "constant-table agreement of scale thresholds/suffixes; canonical value expressions (static value numbering) for the truncation rule: result is a prefix of the exact rendering, cut positions, integer-truncated argument",
-    "C19": "mode-machine constants (canonical threshold comparison, doubling as a linear form) and control dependence in the sampling loop, clear discipline (ADT-enumerated), per-round size store",
-    "C20": "path-sensitive start/finish typestate with correlated-branch splitting, is_last provenance, width-constant agreement, column-table agreement; lower-bound (interval) evaluation of the name/column gap over canonical value expressions",
+    "C19": "mode-machine constants (canonical threshold comparison, doubling as a linear form) and control dependence in the sampling loop, clear discipline (ADT-enumerated), per-round size store; structure of measure_precision (sentinel never reported); BenchMode predicate tables",
+    "C20": "path-sensitive start/finish typestate with correlated-branch splitting, is_last provenance, width-constant agreement, column-table agreement; lower-bound (interval) evaluation of the name/column gap over canonical value expressions; column-predicate tables; start/finish position pairing",
 }
 
 LEVEL_TEXT = (
